@@ -1,40 +1,71 @@
 /-
 C08 — partial formulas equal their definitions; identities hold for all parameters.
+The defining sums are those of PcProofs/Spec (noncomputable, Mathlib vocabulary); the executable copies in
+PcModel/Formulas.lean are what the correspondence streams compare the C++ terms with.
 -/
-import PcProofs.Spec.Phi
+import PcProofs.Spec.All
 
 namespace Pc.C08
 open Pc.Spec
 
-/-- LMO / Deleglise-Rivat identity for EVERY cut-off: with `a = π(y)` leaves indexed by subsets of prime
-    indices in `(c, a]`, ordinary leaves `S1 = ord x y c a` (products ≤ y) plus special leaves
-    `S2 = spec x y c a` equal `φ(x, a)`, for every `y ≥ 1` and every `c ≤ a` (not only the default tuning). -/
-theorem s1_add_s2_eq_phi (x y c a : ℕ) (hy : 1 ≤ y) (hc : c ≤ a) :
-    (phi x a : ℤ) = ord x y c a + spec x y c a :=
-  lmo_general x y a hy (a - c) c (by omega)
+/-- LMO: S1 + S2 = φ(x, π(y)) for EVERY y ≥ 1 and every c ≤ π(y) (not only the default tuning). -/
+theorem s1_add_s2_eq_phi (x y c : ℕ) (hy : 1 ≤ y) (hc : c ≤ Nat.primeCounting y) :
+    (phi x (Nat.primeCounting y) : ℤ) = S1 x y c + S2 x y c := lmo x y c hy hc
 
-/-- Gourdon's ordinary/special split: the same identity with the independent cut-off `z` and stop level `k`:
-    `φ(x, a) = Φ0 + (all special leaves with m ≤ z < p_b m)`, for every `z ≥ 1`, `k ≤ a`. -/
-theorem phi0_add_special_eq_phi (x z k a : ℕ) (hz : 1 ≤ z) (hk : k ≤ a) :
-    (phi x a : ℤ) = ord x z k a + spec x z k a :=
-  lmo_general x z a hz (a - k) k (by omega)
+/-- the split of the special leaves into the three classes of the Deleglise-Rivat implementation -/
+theorem s2_split (x y c : ℕ) (hy : y * y ≤ x) (hc : c ≤ Nat.primeCounting y) :
+    S2 x y c = S2_trivial x y c + S2_easy x y c + S2_hard x y c := dr_split hy hc
 
-/-- the value of the decomposition does not depend on the cut-off or the stop level -/
-theorem decomposition_parameter_independent (x a z z' b b' : ℕ) (hz : 1 ≤ z) (hz' : 1 ≤ z')
-    (hb : b ≤ a) (hb' : b' ≤ a) :
-    ord x z b a + spec x z b a = ord x z' b' a + spec x z' b' a := by
-  rw [← lmo_general x z a hz (a - b) b (by omega), ← lmo_general x z' a hz' (a - b') b' (by omega)]
+/-- π(x) = S1 + S2_trivial + S2_easy + S2_hard + π(y) − 1 − P2 for every y with y² ≤ x < (y+1)³, i.e. for
+    every y = ⌊α·x^(1/3)⌋ the tuning factor can produce, and every c ≤ π(y) -/
+theorem dr_identity (x y c : ℕ) (hy : 1 ≤ y) (hy2 : y * y ≤ x) (hy3 : x < (y + 1) ^ 3)
+    (hc : c ≤ Nat.primeCounting y) :
+    (Nat.primeCounting x : ℤ) = S1 x y c + S2_trivial x y c + S2_easy x y c + S2_hard x y c
+      + Nat.primeCounting y - 1 - P2 x (Nat.primeCounting y) := pi_dr hy hy2 hy3 hc
+
+/-- Gourdon: π(x) = A − B + C + D + Φ0 + Σ0 + … + Σ6 for EVERY (y, z) with x^(1/3) < y ≤ z ≤ √x and every
+    k ≤ π(⌊x^(1/4)⌋), with x⋆ = `get_x_star_gourdon(x, y)` (`xstar x y r4`), c3 = ⌊x^(1/3)⌋, r4 = ⌊x^(1/4)⌋. -/
+theorem gourdon_identity (x y z k c3 r4 : ℕ)
+    (hc3 : c3 ^ 3 ≤ x) (hc3' : x < (c3 + 1) ^ 3) (hr4 : r4 ^ 4 ≤ x) (hr4' : x < (r4 + 1) ^ 4)
+    (hy : c3 < y) (hy2 : y * y ≤ x) (hyz : y ≤ z) (hz : z * z ≤ x) (hk : k ≤ Nat.primeCounting r4) :
+    let w := xstar x y r4
+    (Nat.primeCounting x : ℤ) =
+      A x y w c3 - B x y + C x y z k w + D x y z k w + Phi0 x y z k +
+        (Sigma0 x (Nat.primeCounting y) + Sigma1 (Nat.primeCounting y) (Nat.primeCounting c3) +
+          Sigma2 (Nat.primeCounting y) (Nat.primeCounting c3) (Nat.primeCounting (Nat.sqrt (x / y))) (Nat.primeCounting w) +
+          Sigma3 (Nat.primeCounting c3) (Nat.primeCounting w) + Sigma4 x y w + Sigma5 x y c3 + Sigma6 x w c3) :=
+  (GParams.of_xstar hc3 hc3' hr4 hr4' hy hy2 hyz hz hk).pi_gourdon
+
+/-- the part of Gourdon's identity that replaces P2: −B + Σ0 = π(y) − 1 − P2(x, π(y)) -/
+theorem B_sigma0 (x y : ℕ) (h : Nat.primeCounting y ≤ Nat.primeCounting (Nat.sqrt x)) :
+    -B x y + Sigma0 x (Nat.primeCounting y) = Nat.primeCounting y - 1 - P2 x (Nat.primeCounting y) :=
+  gourdon_B_sigma0 x y h
+
+/-- P2 as the sum the code evaluates -/
+theorem P2_as_sum (x a : ℕ) :
+    P2 x a = ∑ q ∈ primesGt a (Nat.sqrt x), (Nat.primeCounting (x / q) - Nat.primeCounting q + 1) := P2_sum x a
+
+/-- the generalised leaf decomposition: any cut-off, any stop level -/
+theorem leaf_decomposition (x a z b : ℕ) (hz : 1 ≤ z) (hb : b ≤ a) :
+    (phi x a : ℤ) = ord x z b a + spec x z b a := lmo_general x z a hz (a - b) b (by omega)
 
 /-- Legendre recurrence, the step every special-leaf value rests on -/
 theorem phi_recurrence (x a : ℕ) (ha : 1 ≤ a) : phi x a + phi (x / p a) (a - 1) = phi x (a - 1) :=
   phi_rec x a ha
 
-/-! non-vacuity -/
-example : (phi 100 3 : ℤ) = ord 100 7 1 3 + spec 100 7 1 3 := s1_add_s2_eq_phi 100 7 1 3 (by norm_num) (by norm_num)
+/-! non-vacuity: the hypotheses are met by concrete non-trivial parameters -/
+example := dr_identity 1000 12 2 (by norm_num) (by norm_num) (by norm_num)
+  (by rw [show Nat.primeCounting 12 = 5 by decide]; norm_num)
+example := gourdon_identity 100000 60 100 2 46 17 (by norm_num) (by norm_num) (by norm_num) (by norm_num)
+  (by norm_num) (by norm_num) (by norm_num) (by norm_num) (by rw [show Nat.primeCounting 17 = 7 by decide]; norm_num)
 
 end Pc.C08
 
 #print axioms Pc.C08.s1_add_s2_eq_phi
-#print axioms Pc.C08.phi0_add_special_eq_phi
-#print axioms Pc.C08.decomposition_parameter_independent
+#print axioms Pc.C08.s2_split
+#print axioms Pc.C08.dr_identity
+#print axioms Pc.C08.gourdon_identity
+#print axioms Pc.C08.B_sigma0
+#print axioms Pc.C08.P2_as_sum
+#print axioms Pc.C08.leaf_decomposition
 #print axioms Pc.C08.phi_recurrence
